@@ -192,6 +192,16 @@ def c_qutip(ctx, args):
         return None if q == 0 else {'kind': 'oracle', 'where': 'np:to_qutip of the zero polynomial', 'observed': repr(q), 'expected': 0}
     if not np.allclose(np.array(q.full()), dense_obj(o, n)):
         return {'kind': 'oracle', 'where': 'np:to_qutip', 'observed': 'matrix', 'expected': 'the denoted operator', 'operand': o}
+    if o[0] == 2 and len(o[2]) > 0:
+        # export -> in-place update of the same object -> export again: the second export denotes the updated polynomial
+        rng = __import__('random').Random(len(str(o)))
+        g = gen.rpauli(rng, n, herm=True, nonzero=True)
+        x.rotate_by(NP.P(g))
+        if n >= 2:
+            x.rotate_by(NP.P(gen.rpauli(rng, 1, herm=True, nonzero=True)), mask=np.array([True] + [False] * (n - 1)))
+        now = from_py(x, n)
+        if not np.allclose(np.array(x.to_qutip().full()), dense_obj(now, n)):
+            return {'kind': 'oracle', 'where': 'np:to_qutip after an in-place rotation of the exported polynomial', 'observed': 'stale matrix', 'expected': 'the updated operator', 'operand': o, 'tags': ['history']}
     return None
 
 
